@@ -31,10 +31,16 @@ class Finding:
         }
 
 
+# every Result created during a run, oldest first: when a later rule gives up with an AnalysisError, what the earlier
+# rules of the property's own Result have established is still reported (a violation that was found stands)
+ACTIVE = []
+
+
 class Result:
     """Collects what one property check analysed."""
 
     def __init__(self, prop: str):
+        ACTIVE.append(self)
         self.prop = prop
         self.findings: list[Finding] = []
         self.rules: dict[str, dict] = {}
